@@ -321,3 +321,385 @@ Lemma dict_of_nodup l : nodup_from rt [] (map fst l) = true -> dict_of rt l = l.
 Proof. intros H. unfold dict_of. rewrite (dict_fold_fresh l [] []); auto. Qed.
 
 End Containers.
+
+(* ------------------------------------------------------------------ structured classes *)
+Lemma kw_set_fresh f v : forall kw, ~ In f (map fst kw) -> kw_set f v kw = kw ++ [(f, v)].
+Proof.
+  induction kw as [| [g w] kw IH]; cbn; intros H; auto.
+  destruct (Nat.eqb f g) eqn:Hfg.
+  - apply Nat.eqb_eq in Hfg. exfalso; apply H; left; auto.
+  - f_equal. apply IH. intros Hin; apply H; right; exact Hin.
+Qed.
+
+Lemma kw_lookup_skip f v : forall pre r, ~ In f (map fst pre) -> kw_lookup f (pre ++ (f, v) :: r) = Some v.
+Proof.
+  induction pre as [| [g w] pre IH]; cbn; intros r H.
+  - rewrite Nat.eqb_refl; reflexivity.
+  - destruct (Nat.eqb f g) eqn:Hfg.
+    + apply Nat.eqb_eq in Hfg. exfalso; apply H; left; auto.
+    + apply IH. intros Hin; apply H; right; exact Hin.
+Qed.
+
+Lemma fill_fields_exact : forall flds pre rest,
+  map fst rest = map fname flds -> NoDup (map fst (pre ++ rest)) ->
+  fill_fields flds (pre ++ rest) = Ok rest.
+Proof.
+  induction flds as [| fd flds IH]; intros pre rest Hm Hn.
+  - destruct rest; [reflexivity | discriminate].
+  - destruct rest as [| [g v] rest]; [discriminate |].
+    cbn in Hm. inversion Hm as [[Hg Hrest]]. cbn [fill_fields].
+    rewrite <- Hg. rewrite kw_lookup_skip.
+    + replace (pre ++ (g, v) :: rest) with ((pre ++ [(g, v)]) ++ rest) by (rewrite <- app_assoc; reflexivity).
+      rewrite IH; [cbn; rewrite Hg; reflexivity | exact Hrest |].
+      rewrite <- app_assoc; exact Hn.
+    + rewrite map_app in Hn. cbn in Hn. apply NoDup_remove_2 in Hn.
+      intros Hin; apply Hn. apply in_or_app; left; exact Hin.
+Qed.
+
+Lemma combine_map_tokv : forall names l, combine (map PKey names) l = map tokv (combine names l).
+Proof. induction names as [| n names IH]; destruct l; cbn; auto. unfold tokv at 1; cbn. f_equal; auto. Qed.
+
+Lemma map_fst_combine {A B} : forall (a : list A) (b : list B), length a = length b -> map fst (combine a b) = a.
+Proof. induction a; destruct b; cbn; intros H; try discriminate; auto. f_equal; auto. Qed.
+Lemma map_snd_combine {A B} : forall (a : list A) (b : list B), length a = length b -> map snd (combine a b) = b.
+Proof. induction a; destruct b; cbn; intros H; try discriminate; auto. f_equal; auto. Qed.
+
+Lemma td_fields_tokv : forall kvs fs, td_fields kvs = Some fs -> kvs = map tokv fs.
+Proof.
+  induction kvs as [| [k v] kvs IH]; cbn; intros fs H.
+  - inversion H; reflexivity.
+  - destruct k; try discriminate. destruct (td_fields kvs) as [t |]; try discriminate.
+    inversion H; subst fs; cbn. unfold tokv at 1; cbn. f_equal; auto.
+Qed.
+
+Section Classes.
+Variable rt : runtime.
+Variable E : env.
+
+Lemma class_iteritems c cd v fs :
+  E c = Some (NClass cd) -> class_fields c cd v = Some fs -> iteritems rt E v = Ok (map tokv fs).
+Proof.
+  intros HE H. unfold class_fields in H.
+  destruct (cflavour cd); destruct v as [a | f | k l | k l | c' l | c' l]; try discriminate.
+  - destruct (Nat.eqb c c' && _); inversion H; subst; reflexivity.
+  - destruct (Nat.eqb c c' && Nat.eqb _ _) eqn:Hc; inversion H; subst.
+    apply andb_prop in Hc; destruct Hc as [Hc _]. apply Nat.eqb_eq in Hc; subst c'.
+    cbn. unfold named_fields; rewrite HE. rewrite combine_map_tokv; reflexivity.
+  - destruct k; try discriminate. cbn. rewrite (td_fields_tokv _ _ H); reflexivity.
+  - destruct (Nat.eqb c c' && _); inversion H; subst; reflexivity.
+Qed.
+
+Lemma class_construct c cd v fs :
+  class_fields c cd v = Some fs -> NoDup (map fst fs) -> construct_class c cd fs = Ok v.
+Proof.
+  intros H Hn. unfold class_fields in H. unfold construct_class.
+  destruct (cflavour cd); destruct v as [a | f | k l | k l | c' l | c' l]; try discriminate.
+  - destruct (Nat.eqb c c' && _) eqn:Hc; inversion H; subst.
+    apply andb_prop in Hc; destruct Hc as [Hc Hl]. apply Nat.eqb_eq in Hc; subst c'.
+    apply list_eqb_nat_eq in Hl.
+    pose proof (fill_fields_exact (cfields cd) [] fs Hl Hn) as Hf; cbn [app] in Hf; rewrite Hf; reflexivity.
+  - destruct (Nat.eqb c c' && Nat.eqb _ _) eqn:Hc; inversion H; subst.
+    apply andb_prop in Hc; destruct Hc as [Hc Hl]. apply Nat.eqb_eq in Hc; subst c'.
+    apply Nat.eqb_eq in Hl.
+    assert (Hlen : length (map fname (cfields cd)) = length l) by (rewrite map_length; auto).
+    pose proof (fill_fields_exact (cfields cd) [] _ (map_fst_combine _ _ Hlen) Hn) as Hf; cbn [app] in Hf; rewrite Hf. cbn.
+    rewrite (map_snd_combine _ _ Hlen); reflexivity.
+  - destruct k; try discriminate. rewrite (td_fields_tokv _ _ H); reflexivity.
+  - destruct (Nat.eqb c c' && _) eqn:Hc; inversion H; subst.
+    apply andb_prop in Hc; destruct Hc as [Hc Hl]. apply Nat.eqb_eq in Hc; subst c'.
+    apply list_eqb_nat_eq in Hl.
+    pose proof (fill_fields_exact (cfields cd) [] fs Hl Hn) as Hf; cbn [app] in Hf; rewrite Hf; reflexivity.
+Qed.
+
+(* the per-field loop of StructuredType routines, for any member conversion h *)
+Definition fstep (h : ty -> pv -> res pv) (cd : classdef) :=
+  fun (acc : res (list (nat * pv))) (kv : pv * pv) =>
+    bind acc (fun kw =>
+      match fst kv with
+      | PKey f => match field_ty cd f with
+                  | Some ft => bind (h ft (snd kv)) (fun v' => Ok (kw_set f v' kw))
+                  | None => Ok kw end
+      | k => if unhashable rt k then Raise EType else Ok kw
+      end).
+
+Definition FR (h : ty -> pv -> res pv) (cd : classdef) (a b : list (nat * pv)) : Prop :=
+  Forall2 (fun x y => fst y = fst x /\ exists ft, field_ty cd (fst x) = Some ft /\ h ft (snd x) = Ok (snd y)) a b.
+
+Lemma FR_names h cd a b : FR h cd a b -> map fst b = map fst a.
+Proof. induction 1 as [| x y a b [H _] _ IH]; cbn; congruence. Qed.
+
+Lemma fold_nonok h cd : forall l r, (forall kw, r <> Ok kw) -> fold_left (fstep h cd) l r = r.
+Proof.
+  induction l as [| kv l IH]; cbn; intros r Hr; auto.
+  destruct r as [a | e | |]; [exfalso; eapply Hr; reflexivity | | |];
+    (rewrite IH; cbn; auto; intros; discriminate).
+Qed.
+
+Lemma fold_fields_fwd h cd : forall a b acc,
+  FR h cd a b -> NoDup (map fst acc ++ map fst a) ->
+  fold_left (fstep h cd) (map tokv a) (Ok acc) = Ok (acc ++ b).
+Proof.
+  intros a b acc HF; revert acc.
+  induction HF as [| [f v] [g w] a b [Hg [ft [Hft Hh]]] _ IH]; intros acc Hn; cbn.
+  - rewrite app_nil_r; reflexivity.
+  - cbn in Hg, Hft, Hh. subst g. rewrite Hft, Hh. cbn.
+    cbn in Hn. rewrite kw_set_fresh.
+    + rewrite IH; [rewrite <- app_assoc; reflexivity |].
+      rewrite map_app, <- app_assoc; exact Hn.
+    + apply NoDup_remove_2 in Hn. intros Hin; apply Hn. apply in_or_app; left; exact Hin.
+Qed.
+
+Lemma fold_fields_inv h cd : forall a acc kw,
+  Forall (fun x => field_ty cd (fst x) <> None) a -> NoDup (map fst acc ++ map fst a) ->
+  fold_left (fstep h cd) (map tokv a) (Ok acc) = Ok kw ->
+  exists b, FR h cd a b /\ kw = acc ++ b.
+Proof.
+  induction a as [| [f v] a IH]; intros acc kw Hd Hn Hf; cbn in Hf.
+  - inversion Hf; subst. exists []. split; [constructor | rewrite app_nil_r; reflexivity].
+  - inversion Hd as [| x l Hd1 Hd2]; subst. cbn in Hd1.
+    destruct (field_ty cd f) as [ft |] eqn:Hft; [| congruence].
+    destruct (h ft v) as [w | e | |] eqn:Hh; cbn in Hf;
+      try (rewrite fold_nonok in Hf; [discriminate | intros; discriminate]).
+    cbn in Hn. rewrite kw_set_fresh in Hf.
+    + destruct (IH (acc ++ [(f, w)]) kw Hd2) as [b [Hb Hkw]]; [| exact Hf |].
+      * rewrite map_app, <- app_assoc; exact Hn.
+      * exists ((f, w) :: b). split.
+        -- constructor; [| exact Hb]. cbn. split; auto. exists ft; auto.
+        -- rewrite Hkw, <- app_assoc; reflexivity.
+    + apply NoDup_remove_2 in Hn. intros Hin; apply Hn. apply in_or_app; left; exact Hin.
+Qed.
+
+End Classes.
+
+(* ------------------------------------------------------------------ unions *)
+Section Unions.
+Variable rt : runtime.
+
+Lemma first_acceptor_spec (f : ty -> pv -> res pv) v : forall ts pre0 pre t w,
+  first_acceptor rt f pre0 ts v = Some (pre, t, w) ->
+  (exists post, pre0 ++ ts = pre ++ t :: post) /\ f t v = Ok w /\ first_ok rt (map f ts) v = Ok w.
+Proof.
+  induction ts as [| u ts IH]; cbn; intros pre0 pre t w H; [discriminate |].
+  destruct (f u v) as [y | e | |] eqn:Hu; try discriminate.
+  - inversion H; subst. split; [exists ts; reflexivity | split; auto].
+  - destruct (suppressed rt e); [| discriminate].
+    destruct (IH _ _ _ _ H) as [[post Hp] [Hf Hk]].
+    split; [exists post; rewrite <- Hp, <- app_assoc; reflexivity | split; auto].
+Qed.
+
+Lemma first_ok_skip (g : ty -> pv -> res pv) x : forall pre rest,
+  forallb (fun u => res_is_reject (suppressed rt) (g u x)) pre = true ->
+  first_ok rt (map g (pre ++ rest)) x = first_ok rt (map g rest) x.
+Proof.
+  induction pre as [| u pre IH]; cbn; intros rest H; auto.
+  apply andb_prop in H; destruct H as [H1 H2].
+  destruct (g u x) as [y | e | |]; cbn in H1; try discriminate. rewrite H1. auto.
+Qed.
+
+Lemma isoptional_in ts : In TNone ts -> isoptional ts = true.
+Proof. intros H. unfold isoptional. apply existsb_exists. exists TNone; split; auto. Qed.
+
+Lemma isoptional_head ts : isoptional ts = true -> exists r, filter is_none_ty ts = TNone :: r.
+Proof.
+  induction ts as [| t ts IH]; cbn; intros H; [discriminate |].
+  destruct t; cbn in *; try (apply IH; exact H). eexists; reflexivity.
+Qed.
+
+Lemma stack_split ts pre t post :
+  ts = pre ++ t :: post -> is_none_ty t = false ->
+  exists rest, union_stack_u ts = stack_before ts pre ++ t :: rest.
+Proof.
+  intros Hts Ht. unfold union_stack_u, stack_before. destruct (isoptional ts).
+  - unfold none_first.
+    assert (Hf : filter (fun t0 => negb (is_none_ty t0)) ts =
+                 filter (fun t0 => negb (is_none_ty t0)) pre ++ t :: filter (fun t0 => negb (is_none_ty t0)) post).
+    { rewrite Hts, filter_app. cbn. rewrite Ht. reflexivity. }
+    rewrite Hf. eexists. rewrite <- app_assoc. reflexivity.
+  - exists post; exact Hts.
+Qed.
+
+End Unions.
+
+(* ------------------------------------------------------------------ the round trip *)
+Section Round.
+Variable rt : runtime.
+Variable lv : nat -> pv -> bool.
+Variable E : env.
+Hypothesis L : RoundLaws rt lv.
+
+Definition ok3 (n : nat) (t : ty) (v : pv) : bool :=
+  valid rt lv E n t v && c01_guard rt E n t v && union_unamb rt lv E n t v.
+Definition RT (n : nat) : Prop :=
+  forall t v w, ok3 n t v = true -> mar rt E n t v = Ok w -> unm rt E n t w = Ok v.
+
+Lemma ok3_split n t v : ok3 n t v = true ->
+  valid rt lv E n t v = true /\ c01_guard rt E n t v = true /\ union_unamb rt lv E n t v = true.
+Proof. unfold ok3; intros H. apply andb_prop in H; destruct H as [H H3]. apply andb_prop in H; tauto. Qed.
+Lemma ok3_join n t v :
+  valid rt lv E n t v = true -> c01_guard rt E n t v = true -> union_unamb rt lv E n t v = true -> ok3 n t v = true.
+Proof. unfold ok3; intros -> -> ->; reflexivity. Qed.
+
+Lemma FR_flip n cd : RT n -> forall fs b,
+  FR (mar rt E n) cd fs b ->
+  (forall x ft, In x fs -> field_ty cd (fst x) = Some ft -> ok3 n ft (snd x) = true) ->
+  FR (unm rt E n) cd b fs.
+Proof.
+  intros IH fs b HF; induction HF as [| x y fs b [Hn [ft [Hft Hh]]] _ IHF]; intros Hok; constructor.
+  - split; [symmetry; exact Hn |]. exists ft. rewrite Hn. split; [exact Hft |].
+    apply IH; [| exact Hh]. apply (Hok x ft); [left; reflexivity | exact Hft].
+  - apply IHF. intros x' ft' Hin. apply Hok; right; exact Hin.
+Qed.
+
+Lemma round_named n c : RT n -> forall v w,
+  ok3 (S n) (TName c) v = true -> mar rt E (S n) (TName c) v = Ok w -> unm rt E (S n) (TName c) w = Ok v.
+Proof.
+  intros IH v w Hok Hm. apply ok3_split in Hok. destruct Hok as [Hv [Hg Hu]].
+  cbn [valid] in Hv; cbn [c01_guard] in Hg; cbn [union_unamb] in Hu; cbn [mar] in Hm; cbn [unm].
+  destruct (E c) as [[cd | t'] |] eqn:HE; try discriminate.
+  - destruct (class_fields c cd v) as [fs |] eqn:Hcf; try discriminate.
+    apply andb_prop in Hv; destruct Hv as [Hnd Hv].
+    apply nodup_nat_NoDup in Hnd.
+    rewrite (class_iteritems rt E c cd v fs HE Hcf) in Hm. cbn [bind] in Hm.
+    destruct (fold_left _ (map tokv fs) (Ok [])) as [kw | | |] eqn:Hf in Hm; cbn [bind] in Hm; try discriminate.
+    inversion Hm; subst w; clear Hm.
+    change (fold_left (fstep rt (mar rt E n) cd) (map tokv fs) (Ok []) = Ok kw) in Hf.
+    apply fold_fields_inv in Hf.
+    + destruct Hf as [b [Hb Hkw]]. cbn [app] in Hkw. subst kw.
+      cbn [load is_scalar bind iteritems].
+      change (bind (fold_left (fstep rt (unm rt E n) cd) (map tokv b) (Ok [])) (fun kw => construct_class c cd kw) = Ok v).
+      rewrite (fold_fields_fwd rt (unm rt E n) cd b fs []).
+      * cbn [app bind]. apply class_construct; assumption.
+      * apply FR_flip; [exact IH | exact Hb |].
+        intros x ft Hin Hft.
+        rewrite forallb_forall in Hv, Hg, Hu.
+        specialize (Hv x Hin); specialize (Hg x Hin); specialize (Hu x Hin).
+        rewrite Hft in Hv, Hg, Hu. apply ok3_join; assumption.
+      * cbn [map app]. rewrite (FR_names _ _ _ _ Hb). exact Hnd.
+    + apply Forall_forall. intros x Hin. rewrite forallb_forall in Hv. specialize (Hv x Hin).
+      destruct (field_ty cd (fst x)); [discriminate | discriminate].
+    + cbn [map app]. exact Hnd.
+  - apply IH; [apply ok3_join; assumption | exact Hm].
+Qed.
+
+Lemma valid0_union ts v : existsb (fun t' => valid rt lv E 0 t' v) ts = false.
+Proof. induction ts; cbn; auto. Qed.
+
+Theorem round_core : forall n, RT n.
+Proof.
+  induction n as [| n IH]; intros t v w Hok Hm.
+  - apply ok3_split in Hok. destruct Hok as [Hv _]. cbn in Hv. discriminate.
+  - destruct t as [s| |k a|k kt vt|ts|ts|c|c|s|t'|i t'|i t'|i c|t'|t'].
+    + (* leaf *) apply ok3_split in Hok. destruct Hok as [Hv _]. cbn [valid] in Hv. cbn [mar] in Hm. cbn [unm].
+      eapply leaf_round; eauto.
+    + (* None *) apply ok3_split in Hok. destruct Hok as [Hv _]. cbn [valid] in Hv. cbn [mar] in Hm. cbn [unm].
+      inversion Hm; subst w. apply (none_round _ _ L); exact Hv.
+    + (* subscripted iterable *)
+      apply ok3_split in Hok. destruct Hok as [Hv [Hg Hu]].
+      cbn [valid] in Hv; cbn [c01_guard] in Hg; cbn [union_unamb] in Hu.
+      destruct v as [a0 | f0 | k0 l | k0 l | c0 l | c0 l]; try discriminate.
+      apply andb_prop in Hv; destruct Hv as [Hv Hset]. apply andb_prop in Hv; destruct Hv as [Hk Hv].
+      apply seqkind_eqb_eq in Hk; subst k0.
+      cbn [mar itervalues bind] in Hm.
+      destruct (mapM (mar rt E n a) l) as [ws | | |] eqn:Hws; cbn [bind] in Hm; try discriminate.
+      inversion Hm; subst w; clear Hm.
+      cbn [unm load is_scalar bind itervalues].
+      rewrite (mapM_round (mar rt E n a) (unm rt E n a) l ws); [| | exact Hws].
+      * cbn [bind]. unfold construct_seq.
+        destruct k; try reflexivity;
+          (apply andb_prop in Hset; destruct Hset as [Hh Hd]; apply negb_true_iff in Hh; rewrite Hh;
+           rewrite dedupe_nodup by exact Hd; reflexivity).
+      * intros x w' Hin Hx. apply IH; [| exact Hx].
+        rewrite forallb_forall in Hv, Hg, Hu. apply ok3_join; auto.
+    + (* subscripted mapping *)
+      apply ok3_split in Hok. destruct Hok as [Hv [Hg Hu]].
+      cbn [valid] in Hv; cbn [c01_guard] in Hg; cbn [union_unamb] in Hu.
+      destruct v as [a0 | f0 | k0 l | k0 l | c0 l | c0 l]; try discriminate.
+      apply andb_prop in Hv; destruct Hv as [Hv Hnd]. apply andb_prop in Hv; destruct Hv as [Hv Hh].
+      apply andb_prop in Hv; destruct Hv as [Hk Hv].
+      apply dictkind_eqb_eq in Hk; subst k0. apply negb_true_iff in Hh.
+      apply andb_prop in Hg; destruct Hg as [Hg Hkeys].
+      cbn [mar iteritems bind] in Hm.
+      destruct (mapM _ l) as [rs | | |] eqn:Hrs in Hm; cbn [bind] in Hm; try discriminate.
+      unfold construct_map in Hm.
+      destruct (existsb (fun kv => unhashable rt (fst kv)) rs); try discriminate.
+      inversion Hm; subst w; clear Hm.
+      rewrite (mapM_pair_fst _ _ _ _ Hrs) in Hkeys.
+      rewrite (dict_of_nodup rt rs Hkeys).
+      cbn [unm load is_scalar bind iteritems].
+      rewrite (mapM_round (fun kv => bind (mar rt E n kt (fst kv)) (fun k' =>
+                               bind (mar rt E n vt (snd kv)) (fun v' => Ok (k', v'))))
+                          (fun kv => bind (unm rt E n kt (fst kv)) (fun k' =>
+                               bind (unm rt E n vt (snd kv)) (fun v' => Ok (k', v')))) l rs); [| | exact Hrs].
+      * cbn [bind]. unfold construct_map. rewrite Hh. rewrite (dict_of_nodup rt l Hnd). reflexivity.
+      * intros [xk xv] [wk wv] Hin Hx. cbn [fst snd] in *.
+        rewrite forallb_forall in Hv, Hg, Hu.
+        specialize (Hv _ Hin); specialize (Hg _ Hin); specialize (Hu _ Hin). cbn [fst snd] in *.
+        apply andb_prop in Hv; destruct Hv as [Hv1 Hv2].
+        apply andb_prop in Hg; destruct Hg as [Hg1 Hg2].
+        apply andb_prop in Hu; destruct Hu as [Hu1 Hu2].
+        destruct (mar rt E n kt xk) as [wk' | | |] eqn:H1; cbn [bind] in Hx; try discriminate.
+        destruct (mar rt E n vt xv) as [wv' | | |] eqn:H2; cbn [bind] in Hx; try discriminate.
+        inversion Hx; subst wk' wv'.
+        rewrite (IH kt xk wk (ok3_join _ _ _ Hv1 Hg1 Hu1) H1). cbn [bind].
+        rewrite (IH vt xv wv (ok3_join _ _ _ Hv2 Hg2 Hu2) H2). reflexivity.
+    + (* fixed tuple *)
+      apply ok3_split in Hok. destruct Hok as [Hv [Hg Hu]].
+      cbn [valid] in Hv; cbn [c01_guard] in Hg; cbn [union_unamb] in Hu.
+      destruct v as [a0 | f0 | k0 l | k0 l | c0 l | c0 l]; try discriminate.
+      destruct k0; try discriminate.
+      cbn [mar itervalues bind] in Hm.
+      destruct (mapM _ (zip_trunc ts l)) as [ws | | |] eqn:Hws in Hm; cbn [bind] in Hm; try discriminate.
+      inversion Hm; subst w; clear Hm.
+      cbn [unm load is_scalar bind itervalues].
+      rewrite (mapM_zip_round (mar rt E n) (unm rt E n) (ok3 n) IH ts l ws); [reflexivity | | exact Hws].
+      apply forallb2_and3; assumption.
+    + (* union *)
+      apply ok3_split in Hok. destruct Hok as [Hv [_ Hu]].
+      cbn [valid] in Hv; cbn [union_unamb] in Hu. cbn [mar] in Hm. cbn [unm].
+      destruct n as [| n']; [rewrite valid0_union in Hv; discriminate |].
+      destruct (isoptional ts && is_none_val rt v) eqn:Hc.
+      * inversion Hm; subst w; clear Hm.
+        apply andb_prop in Hc; destruct Hc as [Hopt Hnone].
+        unfold union_stack_u. rewrite Hopt. unfold none_first.
+        destruct (isoptional_head ts Hopt) as [r Hr]. rewrite Hr. cbn [app map first_ok unm].
+        rewrite (none_round _ _ L v Hnone). reflexivity.
+      * destruct (first_acceptor rt (mar rt E (S n')) [] ts v) as [[[pre t0] w0] |] eqn:Hfa; try discriminate.
+        destruct (first_acceptor_spec rt _ _ _ _ _ _ _ Hfa) as [[post Hts] [Hmt Hfo]].
+        rewrite Hfo in Hm. inversion Hm; subst w0; clear Hm.
+        cbn [app] in Hts.
+        apply andb_prop in Hu; destruct Hu as [Hu Hrej]. apply andb_prop in Hu; destruct Hu as [Hu Hu3].
+        apply andb_prop in Hu; destruct Hu as [Hv0 Hg0].
+        assert (Hnn : is_none_ty t0 = false).
+        { destruct t0; try reflexivity. exfalso.
+          cbn [valid] in Hv0. rewrite Hv0, andb_true_r in Hc.
+          rewrite isoptional_in in Hc; [discriminate |]. rewrite Hts. apply in_or_app; right; left; reflexivity. }
+        destruct (stack_split ts pre t0 post Hts Hnn) as [rest Hst]. rewrite Hst.
+        rewrite (first_ok_skip rt (unm rt E (S n')) w _ _ Hrej).
+        cbn [map first_ok].
+        rewrite (IH t0 v w (ok3_join _ _ _ Hv0 Hg0 Hu3) Hmt). reflexivity.
+    + exact (round_named n c IH v w Hok Hm).
+    + exact (round_named n c IH v w Hok Hm).
+    + (* ref to leaf *) apply ok3_split in Hok. destruct Hok as [Hv _]. cbn [valid] in Hv. cbn [mar] in Hm. cbn [unm].
+      eapply leaf_round; eauto.
+    + apply ok3_split in Hok. destruct Hok as [Hv [Hg Hu]]. apply (IH t' v w); [apply ok3_join; assumption | exact Hm].
+    + apply ok3_split in Hok. destruct Hok as [Hv [Hg Hu]]. apply (IH t' v w); [apply ok3_join; assumption | exact Hm].
+    + apply ok3_split in Hok. destruct Hok as [Hv [Hg Hu]]. apply (IH t' v w); [apply ok3_join; assumption | exact Hm].
+    + exact (round_named n c IH v w Hok Hm).
+    + apply ok3_split in Hok. destruct Hok as [Hv [Hg Hu]]. apply (IH t' v w); [apply ok3_join; assumption | exact Hm].
+    + apply ok3_split in Hok. destruct Hok as [Hv [Hg Hu]]. apply (IH t' v w); [apply ok3_join; assumption | exact Hm].
+Qed.
+
+End Round.
+
+(* ------------------------------------------------------------------ the theorem with fuel *)
+Theorem roundtrip_fuel rt lv E : RoundLaws rt lv ->
+  forall n fuel T v w, fuel <= n ->
+  valid rt lv E n T v = true -> c01_guard rt E n T v = true -> union_unamb rt lv E n T v = true ->
+  mar rt E fuel T v = Ok w ->
+  forall f, f >= n -> unm rt E f T w = Ok v.
+Proof.
+  intros L n fuel T v w Hle Hv Hg Hu Hm f Hf.
+  assert (Hm' : mar rt E n T v = Ok w) by (eapply le_res_ok; [apply mar_ge; exact Hle | exact Hm]).
+  pose proof (round_core rt lv E L n T v w (ok3_join rt lv E n T v Hv Hg Hu) Hm') as Hr.
+  eapply le_res_ok; [apply unm_ge; exact Hf | exact Hr].
+Qed.
